@@ -186,8 +186,8 @@ def run(ctx: Ctx) -> None:
     ctx.assumptions = ["learners are executed element by element through their SequenceLearner functions (adaptive runners / SLURM are not used)", "sequential execution",
                        "stored = unpicklable element files / persisted dict entries, observed independently of pipefunc"]
     check_slices(ctx)
-    scenarios = ["outer", "consumer", "reduceother", "internalfirst", "fanout"] if quick else \
-        ["outer", "zip", "consumer", "reduceother", "multi", "internalfirst", "fanout"]
+    scenarios = ["outer", "consumer", "reduceother", "internalfirst", "fanout", "mappedreducer"] if quick else \
+        ["outer", "zip", "consumer", "reduceother", "multi", "internalfirst", "fanout", "mappedreducer"]
     storages = ["file_array", "dict", "shared_memory_dict"]
     traces = []
     for sc in scenarios:
